@@ -63,12 +63,14 @@ def _witness(c, module, cfg_name, known, finding, inv, **kw):
     """While a finding is listed as known the model must reach it (else the entry is stale)."""
     if finding not in known:
         return
-    r = c.mc("cert", module, _cfg(c, cfg_name, known, invariants=[inv]), name=f"witness:{inv}",
-             coverage=False, **kw)
-    st = c.cov["stages"][f"MC:witness:{inv}"]
-    st["reaches_known_deviation"] = (r.violated == inv)
-    st.pop("counterexample_text", None)
-    st.pop("model_counterexample", None)
+    vlib.log(f"[{PROP}] MC witness {inv} ({cfg_name}): the model must reach the listed deviation")
+    r = vlib.tlc("cert", module, _cfg(c, cfg_name, known, invariants=[inv]), coverage=False,
+                 metaname=f"{PROP}_wit_{inv}", **kw)
+    if r.error:
+        raise vlib.ToolError(f"witness {inv}: {r.error}")
+    c.cov["stages"][f"MC:witness:{inv}"] = {
+        "generated": r.generated, "distinct": r.distinct, "wall_s": round(r.wall, 1),
+        "reaches_known_deviation": r.violated == inv}
     if r.violated != inv:
         c.cov.setdefault("stale_known_findings_in_model", []).append(finding)
 
